@@ -86,8 +86,8 @@ var resolveAllow = map[string]string{
 	"engine.writeCompoundList/Suffix().(engine.Compound)":            "Suffix() after a completed Next() loop is the hare, resolved by Next",
 	"(*engine.partial).Arg/Arg().(engine.Compound)":                  "the spine of a partial list is built by the constructor from Go slices: its cdr is a list cell or the tail variable, checked on the line above",
 	"(*engine.Env).Resolve/t.(engine.Variable)":                      "this is the resolver: it follows the binding chain itself",
-	"engine.contains/t.(engine.Variable)":                            "occurs check: follows bindings itself through env.lookup on the Variable case",
-	"engine.contains/t.(engine.Compound)":                            "occurs check: follows bindings itself through env.lookup on the Variable case",
+	"engine.contains/t.(engine.Variable)":                            "occurs check: follows bindings itself through env.lookup on the Variable case (R-OCCURS-DEEP checks that it does)",
+	"engine.contains/t.(engine.Compound)":                            "occurs check: follows bindings itself through env.lookup on the Variable case (R-OCCURS-DEEP checks that it does)",
 	"engine.contains/s.(engine.Atom)":                                "occurs check: compares identity only; s is the variable being bound",
 	"engine.renamedCopy/renamedCopy()#0.(engine.Compound)":           "the copy of a Compound is a Compound: the recursive call received the resolved Compound of the enclosing case",
 	"engine.simplify/simplify().(engine.Compound)":                   "simplify of a Compound argument returns a Compound (its own case Compound), the operand was resolved by the recursive call",
